@@ -90,6 +90,37 @@ Proof.
     apply col_after_lf_then. exact HF.
 Qed.
 
+Lemma bl_cons n ns : bl (n :: ns) = sp n ++ [10] ++ bl ns.
+Proof. unfold bl. cbn [map concat]. rewrite <- app_assoc. reflexivity. Qed.
+
+Lemma bl_app a b : bl (a ++ b) = bl a ++ bl b.
+Proof. unfold bl. rewrite map_app, concat_app. reflexivity. Qed.
+
+Lemma bl_ends ns : ns <> [] -> exists a, bl ns = a ++ [10].
+Proof.
+  intros H. destruct (exists_last H) as [ms [m ->]]. rewrite bl_app. unfold bl at 2. cbn [map concat].
+  rewrite app_nil_r. eexists. rewrite app_assoc. reflexivity.
+Qed.
+
+Lemma bl_repeat k : bl (repeat O k) = nls k.
+Proof. induction k as [|k IH]; [reflexivity|]. cbn [repeat]. rewrite bl_cons, IH. reflexivity. Qed.
+
+Lemma bl_length ns : (length ns <= length (bl ns))%nat.
+Proof.
+  induction ns as [|n ns IH]; [cbn; lia|]. rewrite bl_cons, !app_length. cbn [length]. lia.
+Qed.
+
+Lemma col_after_bl s a ks b : Forall colc b ->
+  s_col (after s (a ++ [10] ++ bl ks ++ b)) = N.of_nat (length b).
+Proof.
+  intros HF. destruct ks as [|k ks].
+  - cbn [bl map concat app]. apply (col_after_lf_then s a b HF).
+  - destruct (bl_ends (k :: ks)) as [x Hx]; [discriminate|]. rewrite Hx.
+    replace (a ++ [10] ++ (x ++ [10]) ++ b) with ((a ++ [10] ++ x) ++ [10] ++ b)
+      by (rewrite <- !app_assoc; reflexivity).
+    apply col_after_lf_then. exact HF.
+Qed.
+
 (* ------------------------------------------------------------------ character classes of the spec *)
 
 (* unfolds every table to a boolean formula over comparisons and lets lia decide *)
@@ -131,6 +162,12 @@ Lemma nls_length n : length (nls n) = n. Proof. apply repeat_length. Qed.
 Lemma lf_nocr : nocr 10. Proof. charfact. Qed.
 Lemma nls_nocr n : Forall nocr (nls n).
 Proof. unfold nls. apply Forall_forall. intros c Hc. apply repeat_spec in Hc. subst. apply lf_nocr. Qed.
+
+Lemma bl_nocr ns : Forall nocr (bl ns).
+Proof.
+  induction ns as [|n ns IH]; [constructor|]. rewrite bl_cons. apply Forall_app. split; [apply sp_nocr|].
+  constructor; [apply lf_nocr | exact IH].
+Qed.
 
 Lemma sp_S n : sp (S n) = 32 :: sp n. Proof. reflexivity. Qed.
 Lemma nls_S n : nls (S n) = 10 :: nls n. Proof. reflexivity. Qed.
